@@ -34,7 +34,9 @@
 //!  * model mismatch (128K file → 48K machine and vice versa): `Err`, or `Ok` with the file's 48 KiB
 //!    correctly visible at 0x4000..0xFFFF; anything else (panic, wrong layout) is a violation.
 //!
-//! Not judged (statement silent): frame clock carried by a file, KEYB joystick type, MEMPTR/Q, anything a
+//! Judged since seed C14l: the position in the frame an SZX file describes (dwCyclesStart), read through
+//! the frame-clock hook right after the load.
+//! Not judged (statement silent): KEYB joystick type, MEMPTR/Q, anything a
 //! file does not describe (AY without AY chunk, mouse without AMXM chunk). SNA carries only IFF2; IFF1 is
 //! required to equal it (the universal reading of the format, and the only one independent of the prior
 //! state). 48K SNA: the two bytes below the restored SP are exempt (the format keeps PC there).
@@ -282,6 +284,10 @@ fn check_loaded(m: &mut Machine, a: &Abs, fmt: Fmt, obs: &Obs, p: &Probe, st: &m
     let mut want = a.clone();
     if fmt == Fmt::Sna {
         want.r.iff1 = want.r.iff2;
+    }
+    // SZX describes where in its frame the machine is (dwCyclesStart); nothing has run since the load
+    if fmt == Fmt::Szx && m.clock() != a.cycles as usize {
+        fail(&mut f, "frame-position", format!("file says {} T-states into the frame, machine is at {}", a.cycles, m.clock()), jobj! {"expected"=>a.cycles as u64,"observed"=>m.clock() as u64});
     }
     let cap = capture(m);
     for d in diff_capture(&cap, &want, &exempt) {
@@ -1180,7 +1186,7 @@ pub fn run(ctx: &Ctx) -> Evidence {
         ctx.require("hidden prior state established", all.prior_established, all.cases / 3);
     }
     ev.assumptions.push("SNA/SZX/SCR layouts typed from the format specifications (SZX 1.4/1.5 by Spectaculator, SNA 48K/128K as documented in the World of Spectrum FAQ)".into());
-    ev.assumptions.push("SNA: IFF1 := IFF2; AY read-back judged under data-sheet masks; FLASH phase free; frame clock of a file, KEYB joystick type, MEMPTR/Q not judged".into());
+    ev.assumptions.push("SNA: IFF1 := IFF2; AY read-back judged under data-sheet masks; FLASH phase free; KEYB joystick type, MEMPTR/Q not judged; SZX dwCyclesStart is judged (machine position right after the load)".into());
     ev.assumptions.push("AY tone frequency f = 1773400/(16·P); amplitude judged relative to the same registers written through the ports of a fresh machine".into());
     ev
 }
